@@ -4,6 +4,7 @@
 
 import html
 import math
+import posixpath
 import re
 import urllib.parse
 from collections.abc import Callable, Sequence
@@ -1768,7 +1769,9 @@ def rel2abs_fn(
     ):
         base_path = Path("/")
     path = base_path / path
-    return str(path.resolve()).removeprefix("/")
+    # purely lexical, like MediaWiki: Path.resolve() would follow symbolic
+    # links of the host file system
+    return posixpath.normpath(str(path)).removeprefix("/")
 
 
 def int_fn(
